@@ -52,7 +52,72 @@ pub fn est_json(net: &EstTimeNet) -> Value {
         "prev": e.idx_prev, "prev_alt": e.idx_prev_alt, "link": e.link_event.link_idx.idx(), "type": et(e.link_event.est_type)})).take(400).collect::<Vec<_>>())
 }
 
-pub fn check_est_net(ctx: &mut Ctx, net: &EstTimeNet, links: &[Link], origs: &[u32], dests: &[u32], depart: f64, info: &Value) -> EstStats {
+/// Does the train's own free run over `route` continued downstream to a destination fail to end within the
+/// step budget (the recorded C03 stall)?
+fn free_run_stalls(sim: &altrios_core::prelude::SpeedLimitTrainSim, links: &[Link], route: &[u32], dests: &[u32]) -> bool {
+    let mut full: Vec<u32> = route.to_vec();
+    // continue along next / next_alt links until a destination (breadth first, bounded)
+    let mut frontier: Vec<Vec<u32>> = vec![vec![]];
+    let mut tail: Option<Vec<u32>> = None;
+    let last = match route.last() {
+        Some(l) => *l,
+        None => return false,
+    };
+    for _ in 0..12 {
+        let mut next_frontier = vec![];
+        for path in &frontier {
+            let at = *path.last().unwrap_or(&last);
+            for nx in [links[at as usize].idx_next.idx() as u32, links[at as usize].idx_next_alt.idx() as u32] {
+                if nx == 0 {
+                    continue;
+                }
+                let mut p2 = path.clone();
+                p2.push(nx);
+                if dests.contains(&nx) {
+                    tail = Some(p2);
+                    break;
+                }
+                next_frontier.push(p2);
+            }
+            if tail.is_some() {
+                break;
+            }
+        }
+        if tail.is_some() || next_frontier.is_empty() {
+            break;
+        }
+        frontier = next_frontier;
+    }
+    let tail = match tail {
+        Some(t) => t,
+        None => return false,
+    };
+    full.extend(tail);
+    let mut p = sim.clone();
+    p.set_save_interval(None);
+    let route_idx: Vec<altrios_core::track::LinkIdx> = full.iter().map(|l| altrios_core::track::LinkIdx::new(*l)).collect();
+    let r = panics::guard(AssertUnwindSafe(|| -> anyhow::Result<bool> {
+        p.extend_path(links, &route_idx)?;
+        p.finish();
+        let mut n = 0usize;
+        loop {
+            let end = p.offset_end().value;
+            let go = p.state.offset.value < end - 1000.0 * 0.3048 || (p.state.offset.value < end && p.state.speed.value != 0.0);
+            if !go {
+                return Ok(false);
+            }
+            p.step()?;
+            n += 1;
+            if n >= 60_000 {
+                // no progress: at rest, short of the end
+                return Ok(p.state.speed.value == 0.0);
+            }
+        }
+    }));
+    matches!(r, Ok(Ok(true)))
+}
+
+pub fn check_est_net(ctx: &mut Ctx, net: &EstTimeNet, links: &[Link], origs: &[u32], dests: &[u32], depart: f64, info: &Value, sim: Option<&altrios_core::prelude::SpeedLimitTrainSim>) -> EstStats {
     let v = &net.val;
     let n = v.len();
     let mut st = EstStats { nodes: n, walks: 0, splits: 0, joins: 0 };
@@ -103,6 +168,59 @@ pub fn check_est_net(ctx: &mut Ctx, net: &EstTimeNet, links: &[Link], origs: &[u
             bad(ctx, "well_formed", "C15:dangling_next".into(), format!("node {i} has idx_next {} (only the last node may end the net)", e.idx_next));
         }
     }
+    // ---- reference: latest time at each node that still reaches the end node at its scheduled time over the
+    // fastest remaining route (primary edge = the node's own duration, alternate edge = no time)
+    let mut rmin = vec![f64::NAN; n];
+    rmin[n - 1] = 0.0;
+    {
+        let mut stack: Vec<usize> = (0..n).collect();
+        let mut guard = 0usize;
+        while let Some(k) = stack.pop() {
+            guard += 1;
+            if guard > 50 * n + 1000 {
+                break;
+            }
+            if !rmin[k].is_nan() {
+                continue;
+            }
+            let (a, b) = (v[k].idx_next as usize, v[k].idx_next_alt as usize);
+            let need: Vec<usize> = [a, b].iter().copied().filter(|&x| x != 0 && x < n && rmin[x].is_nan()).collect();
+            if !need.is_empty() {
+                stack.push(k);
+                stack.extend(need);
+                continue;
+            }
+            let mut best = f64::INFINITY;
+            if a != 0 && a < n {
+                best = best.min(v[k].time_to_next.value + rmin[a]);
+            }
+            if b != 0 && b < n {
+                best = best.min(rmin[b]);
+            }
+            rmin[k] = best;
+        }
+    }
+    let t_end = v[n - 1].time_sched.value;
+    let as_designed = |k: usize| -> bool { rmin[k].is_finite() && (v[k].time_sched.value - (t_end - rmin[k])).abs() <= 1e-6 + 1e-9 * t_end.abs() };
+    for k in 1..n {
+        obs(ctx, p, if as_designed(k) { "obs.nodes_at_latest_start_reference" } else { "obs.nodes_off_latest_start_reference" });
+    }
+    if std::env::var("VERIF_DEBUG_C15").is_ok() && (1..n).any(|k| !as_designed(k)) && n < 80 {
+        eprintln!("NET depart {depart} t_end {t_end}");
+        for k in 0..n {
+            eprintln!("  {k:3} {:?} l{:<3} t={:10.3} ttn={:8.3} next={:3} alt={:3} prev={:3} palt={:3} ref={:10.3} {}", v[k].link_event.est_type, v[k].link_event.link_idx.idx(), v[k].time_sched.value, v[k].time_to_next.value, v[k].idx_next, v[k].idx_next_alt, v[k].idx_prev, v[k].idx_prev_alt, t_end - rmin[k], if as_designed(k) { "" } else { "<<<" });
+        }
+    }
+    // ---- observation only (not a clause of the property): single-origin networks whose first scheduled time is
+    // not the departure time (same mechanism as the recorded backward-pass findings)
+    if n > 2 && v[1].idx_next_alt == 0 && v[0].idx_next_alt == 0 {
+        obs(ctx, p, "obs.single_origin_nets");
+        let t0 = v[0].time_sched.value;
+        ctx.rep.max("max_single_origin_first_time_shift_s", (t0 - depart).abs());
+        if (t0 - depart).abs() > 1e-6 + 1e-9 * depart.abs() {
+            obs(ctx, p, "obs.single_origin_nets_not_starting_at_departure");
+        }
+    }
     // ---- times and durations
     for (i, e) in v.iter().enumerate() {
         let (t, d) = (e.time_sched.value, e.time_to_next.value);
@@ -114,29 +232,28 @@ pub fn check_est_net(ctx: &mut Ctx, net: &EstTimeNet, links: &[Link], origs: &[u
             bad(ctx, "non_negative_duration", "C15:negative_duration".into(), format!("node {i}: time_to_next {d}"));
         }
         if t < -TOL {
-            // exact signature of the recorded finding: the backward pass shifts the slower alternative branch
-            // earlier so that both branches meet the join on time; with a departure close to 0 the shifted
-            // nodes fall below zero. Explained iff the node lies on a shifted branch: it (or a chain of primary
-            // predecessors) starts at a fake node entered through an alternate link of a node scheduled later.
+            // exact signature of the recorded finding: the backward pass schedules every node at
+            // time_sched[primary successor] - own duration, all the way back from the end node, so nodes on a branch
+            // that is not the fastest (and everything upstream of it, incl. the start nodes) are scheduled before the
+            // departure time and, when the difference exceeds the departure time, below zero. Explained iff that
+            // chain identity holds from this node to the end node with non-negative durations and the end node is
+            // not before the departure.
             let mut k = i;
-            let mut explained = false;
+            let mut explained = t_end >= depart - TOL;
             for _ in 0..n {
-                let q = v[k].idx_prev as usize;
-                if k <= 1 {
+                let nx = v[k].idx_next as usize;
+                if nx == 0 {
+                    explained &= k == n - 1;
                     break;
                 }
-                if v[q].idx_next_alt as usize == k && v[q].time_sched.value > v[k].time_sched.value - TOL && v[k].link_event.est_type == EstType::Fake {
-                    explained = true;
+                let dk = v[k].time_to_next.value;
+                if nx >= n || dk < -TOL || (v[nx].time_sched.value - v[k].time_sched.value - dk).abs() > 1e-6 + 1e-9 * t_end.abs() {
+                    explained = false;
                     break;
                 }
-                if v[q].idx_next as usize != k {
-                    break;
-                }
-                k = q;
+                k = nx;
             }
-            // (nodes upstream of a shifted branch - including the two start nodes when origins differ - move with it)
-            let _ = explained;
-            let sig = if depart < 600.0 { "C15:negative_time:backward_pass_shift_with_departure_near_zero" } else { "C15:negative_time" };
+            let sig = if explained { "C15:negative_time:backward_pass_schedules_slower_branch_before_departure" } else { "C15:negative_time" };
             bad(ctx, "non_negative_time", sig.into(), format!("node {i}: time_sched {t} < 0 (departure {depart})"));
         }
         // primary predecessor: equality
@@ -214,10 +331,11 @@ pub fn check_est_net(ctx: &mut Ctx, net: &EstTimeNet, links: &[Link], origs: &[u
                     bad(ctx, "route_from_origin", "C15:route_not_from_origin".into(), format!("walk starts on link {:?}, origins {origs:?}", arrive.first()));
                 }
                 if arrive.is_empty() || !dests.contains(arrive.last().unwrap()) {
-                    // recorded finding (consequence of the C03 stall): the free run stopped for good before its front
-                    // reached the last link, so the destination link is missing from the net
-                    let one_short = arrive.last().map(|l| { let k = &links[*l as usize]; dests.contains(&(k.idx_next.idx() as u32)) || dests.contains(&(k.idx_next_alt.idx() as u32)) }).unwrap_or(false);
-                    bad(ctx, "route_to_destination", if one_short { "C15:route_not_to_destination:free_run_stopped_one_link_short".into() } else { "C15:route_not_to_destination".into() }, format!("walk ends on link {:?}, destinations {dests:?}", arrive.last()));
+                    // recorded finding (consequence of the C03 stall), exact condition: the train's own free run over
+                    // this walk's route continued to the destination never ends (it comes to rest for good inside
+                    // the final braking curve), so the events of the last link(s) are missing from the net
+                    let stalls = sim.map(|s| free_run_stalls(s, links, &arrive, dests)).unwrap_or(false);
+                    bad(ctx, "route_to_destination", if stalls { "C15:route_not_to_destination:free_run_stalls_inside_final_braking_curve".into() } else { "C15:route_not_to_destination".into() }, format!("walk ends on link {:?}, destinations {dests:?}", arrive.last()));
                 }
                 for w in arrive.windows(2) {
                     let l = &links[w[0] as usize];
@@ -552,9 +670,11 @@ pub fn check_plan(ctx: &mut Ctx, inst: &Instance, out: &DispatchOutcome, nets: &
             bad(ctx, "starts_after_departure", format!("first arrival {} before departure {}", route[0].time.value, tc.depart));
         }
         if !tc.dests.contains(&(route.last().unwrap().link_idx.idx() as u32)) {
-            let k = &links[route.last().unwrap().link_idx.idx()];
-            let one_short = tc.dests.contains(&(k.idx_next.idx() as u32)) || tc.dests.contains(&(k.idx_next_alt.idx() as u32));
-            bad(ctx, if one_short { "ends_on_destination:est_time_net_stops_one_link_short" } else { "ends_on_destination" }, format!("route ends on link {} but destinations are {:?}", route.last().unwrap().link_idx.idx(), tc.dests));
+            // recorded finding, exact condition: the train's own estimated-time network has no arrive event on any
+            // destination link (see C15:route_not_to_destination:free_run_stalls_inside_final_braking_curve), so
+            // dispatch cannot route it further
+            let net_reaches_dest = nets.get(k).map(|n| n.val.iter().any(|e| e.link_event.est_type == EstType::Arrive && tc.dests.contains(&(e.link_event.link_idx.idx() as u32)))).unwrap_or(true);
+            bad(ctx, if !net_reaches_dest { "ends_on_destination:est_time_net_has_no_destination_event" } else { "ends_on_destination" }, format!("route ends on link {} but destinations are {:?}", route.last().unwrap().link_idx.idx(), tc.dests));
         }
         for w in route.windows(2) {
             let l = &links[w[0].link_idx.idx()];
@@ -765,7 +885,7 @@ pub fn run_c15(ctx: &mut Ctx, rng: &mut Rng, _t: bool) {
         if k > 0 {
             ctx.rep.evaluations += 1; // one evaluation per estimated-time network
         }
-        let st = check_est_net(ctx, net, &pr.inst.links, &t.origs, &t.dests, t.depart, &pr.info);
+        let st = check_est_net(ctx, net, &pr.inst.links, &t.origs, &t.dests, t.depart, &pr.info, Some(&t.sim));
         ctx.rep.max("max_walks", st.walks as f64);
         ctx.rep.max("max_nodes", st.nodes as f64);
         if st.splits >= 1 && st.joins >= 1 {
